@@ -1,5 +1,421 @@
-import Arp.Model.Arith
-import Arp.Spec.Ops
+import Arp.Lemmas.Order
+/-!
+# C05 — comparisons, `min` and `max` agree with the order of the real numbers
+-/
 namespace Arp.C05
-theorem smoke : (1:Nat) + 1 = 2 := rfl
+open Arp
+
+theorem boolToOrd_true : boolToOrd true = some .lt := rfl
+theorem boolToOrd_false : boolToOrd false = some .gt := rfl
+
+/-! ### `partial_cmp` -/
+
+private theorem pc_inf_left {a b : Flt} (hac : a.cat = .inf) (hbn : b.cat ≠ .nan) :
+    a.partialCmp b = Spec.cmp a b := by
+  rw [Spec.cmp_unfold (by rw [hac]; decide) hbn, Spec.ext_inf hac]
+  cases hbc : b.cat
+  · rw [Spec.ext_inf hbc]
+    cases hsa : a.sign <;> cases hsb : b.sign <;>
+      simp [Flt.partialCmp, hac, hbc, hsa, hsb, boolToOrd]
+  · exact absurd hbc hbn
+  · rw [Spec.ext_fin (by rw [hbc]; decide)]
+    cases hsa : a.sign <;> simp [Flt.partialCmp, hac, hbc, hsa, boolToOrd]
+  · rw [Spec.ext_fin (by rw [hbc]; decide)]
+    cases hsa : a.sign <;> simp [Flt.partialCmp, hac, hbc, hsa, boolToOrd]
+
+private theorem pc_inf_right {a b : Flt} (han : a.cat ≠ .nan) (hai : a.cat ≠ .inf)
+    (hbc : b.cat = .inf) : a.partialCmp b = Spec.cmp a b := by
+  rw [Spec.cmp_unfold han (by rw [hbc]; decide), Spec.ext_inf hbc, Spec.ext_fin hai]
+  cases hac : a.cat
+  · exact absurd hac hai
+  · exact absurd hac han
+  · cases hsb : b.sign <;> simp [Flt.partialCmp, hac, hbc, hsb, boolToOrd]
+  · cases hsb : b.sign <;> simp [Flt.partialCmp, hac, hbc, hsb, boolToOrd]
+
+private theorem pc_normal_zero {a b : Flt} (hac : a.cat = .normal) (hbc : b.cat = .zero)
+    (ha : a.Canonical) : a.partialCmp b = Spec.cmp a b := by
+  rw [Spec.cmp_fin (by rw [hac]; decide) (by rw [hac]; decide) (by rw [hbc]; decide)
+    (by rw [hbc]; decide), Flt.val_zero hbc, Flt.val_normal hac]
+  have hp := Flt.mag_pos_of_canonical hac ha
+  cases hsa : a.sign
+  · have h1 : ¬ a.mag < 0 := not_lt.2 hp.le
+    simp [Flt.partialCmp, hac, hbc, hsa, boolToOrd, h1, hp]
+  · simp [Flt.partialCmp, hac, hbc, hsa, boolToOrd, hp]
+
+private theorem pc_zero_normal {a b : Flt} (hac : a.cat = .zero) (hbc : b.cat = .normal)
+    (hb : b.Canonical) : a.partialCmp b = Spec.cmp a b := by
+  rw [Spec.cmp_fin (by rw [hac]; decide) (by rw [hac]; decide) (by rw [hbc]; decide)
+    (by rw [hbc]; decide), Flt.val_zero hac, Flt.val_normal hbc]
+  have hp := Flt.mag_pos_of_canonical hbc hb
+  cases hsb : b.sign
+  · simp [Flt.partialCmp, hac, hbc, hsb, boolToOrd, hp]
+  · have h1 : ¬ b.mag < 0 := not_lt.2 hp.le
+    simp [Flt.partialCmp, hac, hbc, hsb, boolToOrd, h1, hp]
+
+/-- the model's comparison of two normal values of equal sign, as a function of the order of
+    the magnitudes -/
+private theorem pc_normal_normal {a b : Flt} (hF : a.sem.WF) (hs : b.sem = a.sem)
+    (hac : a.cat = .normal) (hbc : b.cat = .normal) (ha : a.Canonical) (hb : b.Canonical) :
+    a.partialCmp b = Spec.cmp a b := by
+  rw [Spec.cmp_fin (by rw [hac]; decide) (by rw [hac]; decide) (by rw [hbc]; decide)
+    (by rw [hbc]; decide), Flt.val_normal hac, Flt.val_normal hbc]
+  have hpa := Flt.mag_pos_of_canonical hac ha
+  have hpb := Flt.mag_pos_of_canonical hbc hb
+  have hF' : b.sem.WF := by rw [hs]; exact hF
+  have hlt := Flt.mag_lt_iff hF hs hac hbc ha hb
+  have hgt := Flt.mag_lt_iff hF' hs.symm hbc hac hb ha
+  have heq := Flt.mag_eq_iff hF hs hac hbc ha hb
+  -- the model's decision for equal signs, in terms of the magnitudes
+  have hd1 : ¬ a.mag < -b.mag := by linarith
+  have hd2 : -b.mag < a.mag := by linarith
+  have hd3 : -a.mag < b.mag := by linarith
+  rcases lt_trichotomy a.exp b.exp with h | h | h
+  · have h1 : a.mag < b.mag := hlt.2 (Or.inl h)
+    have h2 : ¬ b.mag < a.mag := not_lt.2 h1.le
+    cases hsa : a.sign <;> cases hsb : b.sign <;>
+      simp [Flt.partialCmp, hac, hbc, hsa, hsb, boolToOrd, h, h1, h2, hd1, hd2, hd3]
+  · rcases lt_trichotomy a.mant b.mant with h' | h' | h'
+    · have h1 : a.mag < b.mag := hlt.2 (Or.inr ⟨h, h'⟩)
+      have h2 : ¬ b.mag < a.mag := not_lt.2 h1.le
+      have hc := Nat.compare_eq_lt.2 h'
+      cases hsa : a.sign <;> cases hsb : b.sign <;>
+        simp [Flt.partialCmp, hac, hbc, hsa, hsb, boolToOrd, h, hc, h1, h2, hd1, hd2, hd3]
+    · have h1 : a.mag = b.mag := heq.2 ⟨h, h'⟩
+      rw [h1] at hd1 hd2
+      cases hsa : a.sign <;> cases hsb : b.sign <;>
+        simp [Flt.partialCmp, hac, hbc, hsa, hsb, boolToOrd, h, h', h1, hd1, hd2]
+    · have h1 : b.mag < a.mag := hgt.2 (Or.inr ⟨h.symm, h'⟩)
+      have h2 : ¬ a.mag < b.mag := not_lt.2 h1.le
+      have hc := Nat.compare_eq_gt.2 h'
+      cases hsa : a.sign <;> cases hsb : b.sign <;>
+        simp [Flt.partialCmp, hac, hbc, hsa, hsb, boolToOrd, h, hc, h1, h2, hd1, hd2, hd3]
+  · have h1 : b.mag < a.mag := hgt.2 (Or.inl h)
+    have h2 : ¬ a.mag < b.mag := not_lt.2 h1.le
+    have h3 : ¬ a.exp < b.exp := not_lt.2 h.le
+    cases hsa : a.sign <;> cases hsb : b.sign <;>
+      simp [Flt.partialCmp, hac, hbc, hsa, hsb, boolToOrd, h, h3, h1, h2, hd1, hd2, hd3]
+
+/-- **C05, comparison**: on canonical operands of one format, `partial_cmp` is the
+    comparison of the denoted extended rationals (and `None` iff an operand is NaN). -/
+theorem partialCmp_spec (a b : Flt) (hF : a.sem.WF) (hs : b.sem = a.sem)
+    (ha : a.Canonical) (hb : b.Canonical) : a.partialCmp b = Spec.cmp a b := by
+  by_cases han : a.cat = .nan
+  · rw [Spec.cmp_nan_left han]; simp [Flt.partialCmp, han]
+  by_cases hbn : b.cat = .nan
+  · rw [Spec.cmp_nan_right hbn]; unfold Flt.partialCmp; cases hac : a.cat <;> simp [hbn]
+  by_cases hai : a.cat = .inf
+  · exact pc_inf_left hai hbn
+  by_cases hbi : b.cat = .inf
+  · exact pc_inf_right han hai hbi
+  cases hac : a.cat <;> cases hbc : b.cat <;> try contradiction
+  · exact pc_normal_normal hF hs hac hbc ha hb
+  · exact pc_normal_zero hac hbc ha
+  · exact pc_zero_normal hac hbc hb
+  · rw [Spec.cmp_fin han hai hbn hbi, Flt.val_zero hac, Flt.val_zero hbc]
+    simp [Flt.partialCmp, hac, hbc]
+
+/-! ### The predicates `<`, `<=`, `>`, `>=`, `==` -/
+
+section
+variable (a b : Flt) (hF : a.sem.WF) (hs : b.sem = a.sem) (ha : a.Canonical) (hb : b.Canonical)
+include hF hs ha hb
+
+theorem lt_iff : a.lt b = decide (Spec.cmp a b = some .lt) := by
+  unfold Flt.lt; rw [partialCmp_spec a b hF hs ha hb, beq_eq_decide]
+
+theorem gt_iff : a.gt b = decide (Spec.cmp a b = some .gt) := by
+  unfold Flt.gt; rw [partialCmp_spec a b hF hs ha hb, beq_eq_decide]
+
+theorem le_iff : a.le b = decide (Spec.cmp a b = some .lt ∨ Spec.cmp a b = some .eq) := by
+  unfold Flt.le; rw [partialCmp_spec a b hF hs ha hb, beq_eq_decide, beq_eq_decide,
+    Bool.decide_or]
+
+theorem ge_iff : a.ge b = decide (Spec.cmp a b = some .gt ∨ Spec.cmp a b = some .eq) := by
+  unfold Flt.ge; rw [partialCmp_spec a b hF hs ha hb, beq_eq_decide, beq_eq_decide,
+    Bool.decide_or]
+
+end
+
+/-- Every comparison with a NaN is false, `==` included, and `partial_cmp` is `None`
+    (no canonicity or format hypothesis needed). -/
+theorem nan_unordered (a b : Flt) (h : a.cat = .nan ∨ b.cat = .nan) :
+    a.partialCmp b = none ∧ Spec.cmp a b = none ∧ a.lt b = false ∧ a.le b = false ∧
+      a.gt b = false ∧ a.ge b = false ∧ a.beq b = false := by
+  have hp : a.partialCmp b = none := by
+    unfold Flt.partialCmp
+    rcases h with h | h
+    · simp [h]
+    · cases hac : a.cat <;> simp [h]
+  refine ⟨hp, Spec.cmp_none_iff.2 h, ?_, ?_, ?_, ?_, ?_⟩
+  · simp [Flt.lt, hp]
+  · simp [Flt.le, hp]
+  · simp [Flt.gt, hp]
+  · simp [Flt.ge, hp]
+  · unfold Flt.beq
+    rcases h with h | h
+    · simp [h]
+    · cases hac : a.cat <;> simp [h]
+
+/-- `==` without the spec: it coincides with `partial_cmp = Some(Equal)` on canonical values -/
+theorem beq_iff_partialCmp_eq (a b : Flt) (ha : a.Canonical) (hb : b.Canonical) :
+    a.beq b = true ↔ a.partialCmp b = some .eq := by
+  obtain ⟨s, sg, e, m, c⟩ := a
+  obtain ⟨s', sg', e', m', c'⟩ := b
+  cases c <;> cases c'
+  case inf.inf =>
+    have h1 := (Flt.canonical_special (x := ⟨s, sg, e, m, .inf⟩) (by simp)).1 ha
+    have h2 := (Flt.canonical_special (x := ⟨s', sg', e', m', .inf⟩) (by simp)).1 hb
+    simp only at h1 h2
+    obtain ⟨rfl, rfl⟩ := h1
+    obtain ⟨rfl, rfl⟩ := h2
+    cases sg <;> cases sg' <;> simp [Flt.beq, Flt.partialCmp, boolToOrd]
+  case normal.normal =>
+    cases sg <;> cases sg' <;> simp [Flt.beq, Flt.partialCmp, boolToOrd]
+    all_goals
+      rcases lt_trichotomy e e' with h | h | h
+      · simp [h, h.ne]
+      · subst h
+        rcases lt_trichotomy m m' with h' | h' | h'
+        · simp [h'.ne, Nat.compare_eq_lt.2 h']
+        · simp [h']
+        · simp [h'.ne', Nat.compare_eq_gt.2 h']
+      · simp [h.ne', not_lt.2 h.le, h]
+  all_goals cases sg <;> cases sg' <;> simp [Flt.beq, Flt.partialCmp, boolToOrd]
+
+/-- `==` holds exactly when the denoted values are equal (and none is NaN). -/
+theorem eq_iff_cmp_eq (a b : Flt) (hF : a.sem.WF) (hs : b.sem = a.sem) (ha : a.Canonical)
+    (hb : b.Canonical) : a.beq b = true ↔ Spec.cmp a b = some .eq := by
+  rw [beq_iff_partialCmp_eq a b ha hb, partialCmp_spec a b hF hs ha hb]
+
+/-- `+0` and `-0` (any two zeros) compare equal. -/
+theorem zero_eq_negzero (a b : Flt) (ha : a.cat = .zero) (hb : b.cat = .zero) :
+    a.beq b = true ∧ a.partialCmp b = some .eq ∧ Spec.cmp a b = some .eq ∧
+      a.lt b = false ∧ a.gt b = false ∧ a.le b = true ∧ a.ge b = true := by
+  have hp : a.partialCmp b = some .eq := by simp [Flt.partialCmp, ha, hb]
+  refine ⟨by simp [Flt.beq, ha, hb], hp, ?_, ?_, ?_, ?_, ?_⟩
+  · rw [Spec.cmp_fin (by rw [ha]; decide) (by rw [ha]; decide) (by rw [hb]; decide)
+      (by rw [hb]; decide), Flt.val_zero ha, Flt.val_zero hb]
+    simp
+  · simp [Flt.lt, hp]
+  · simp [Flt.gt, hp]
+  · simp [Flt.le, hp]
+  · simp [Flt.ge, hp]
+
+/-! ### Order properties, inherited from the linear order on the key `ℤ ×ₗ ℚ` -/
+
+/-- antisymmetry of the specification's comparison (no hypotheses) -/
+theorem spec_cmp_antisymm (a b : Flt) : Spec.cmp a b = some .lt ↔ Spec.cmp b a = some .gt := by
+  rw [Spec.cmp_lt_iff, Spec.cmp_gt_iff]; tauto
+
+theorem spec_cmp_eq_comm (a b : Flt) : Spec.cmp a b = some .eq ↔ Spec.cmp b a = some .eq := by
+  rw [Spec.cmp_eq_iff, Spec.cmp_eq_iff]; constructor <;> rintro ⟨h1, h2, h3⟩ <;> exact ⟨h2, h1, h3.symm⟩
+
+section
+variable (a b : Flt) (hF : a.sem.WF) (hs : b.sem = a.sem) (ha : a.Canonical) (hb : b.Canonical)
+include hF hs ha hb
+
+/-- antisymmetry of the model's comparison -/
+theorem cmp_antisymm : a.partialCmp b = some .lt ↔ b.partialCmp a = some .gt := by
+  rw [partialCmp_spec a b hF hs ha hb, partialCmp_spec b a (by rw [hs]; exact hF) hs.symm hb ha]
+  exact spec_cmp_antisymm a b
+
+theorem lt_iff_gt : a.lt b = b.gt a := by
+  rw [lt_iff a b hF hs ha hb, gt_iff b a (by rw [hs]; exact hF) hs.symm hb ha]
+  exact decide_eq_decide.2 (spec_cmp_antisymm a b)
+
+theorem lt_iff_key : a.lt b = true ↔ (a.cat ≠ .nan ∧ b.cat ≠ .nan ∧ Spec.key a < Spec.key b) := by
+  rw [lt_iff a b hF hs ha hb, decide_eq_true_iff, Spec.cmp_lt_iff]
+
+theorem le_iff_key : a.le b = true ↔ (a.cat ≠ .nan ∧ b.cat ≠ .nan ∧ Spec.key a ≤ Spec.key b) := by
+  rw [le_iff a b hF hs ha hb, decide_eq_true_iff, Spec.cmp_le_iff]
+
+/-- non-NaN values are totally ordered by `<=` -/
+theorem le_total (han : a.cat ≠ .nan) (hbn : b.cat ≠ .nan) : a.le b = true ∨ b.le a = true := by
+  rw [le_iff_key a b hF hs ha hb, le_iff_key b a (by rw [hs]; exact hF) hs.symm hb ha]
+  rcases _root_.le_total (Spec.key a) (Spec.key b) with h | h
+  · exact Or.inl ⟨han, hbn, h⟩
+  · exact Or.inr ⟨hbn, han, h⟩
+
+/-- `a < b` excludes `b <= a` -/
+theorem lt_iff_not_ge (han : a.cat ≠ .nan) (hbn : b.cat ≠ .nan) :
+    a.lt b = true ↔ b.le a = false := by
+  rw [← Bool.not_eq_true, lt_iff_key a b hF hs ha hb,
+    le_iff_key b a (by rw [hs]; exact hF) hs.symm hb ha]
+  constructor
+  · rintro ⟨_, _, h⟩ ⟨_, _, h'⟩; exact absurd h (not_lt.2 h')
+  · intro h; exact ⟨han, hbn, not_le.1 fun h' => h ⟨hbn, han, h'⟩⟩
+
+end
+
+theorem lt_irrefl (a : Flt) (hF : a.sem.WF) (ha : a.Canonical) : a.lt a = false := by
+  rw [← Bool.not_eq_true, lt_iff_key a a hF rfl ha ha]
+  rintro ⟨_, _, h⟩; exact absurd h (_root_.lt_irrefl _)
+
+theorem le_refl (a : Flt) (hF : a.sem.WF) (ha : a.Canonical) (han : a.cat ≠ .nan) :
+    a.le a = true := by
+  rw [le_iff_key a a hF rfl ha ha]; exact ⟨han, han, _root_.le_refl _⟩
+
+section
+variable (a b c : Flt) (hF : a.sem.WF) (hsb : b.sem = a.sem) (hsc : c.sem = a.sem)
+  (ha : a.Canonical) (hb : b.Canonical) (hc : c.Canonical)
+include hF hsb hsc ha hb hc
+
+/-- transitivity of `<` (the operands are non-NaN because the comparisons are true) -/
+theorem lt_trans (h1 : a.lt b = true) (h2 : b.lt c = true) : a.lt c = true := by
+  rw [lt_iff_key a b hF hsb ha hb] at h1
+  rw [lt_iff_key b c (by rw [hsb]; exact hF) (by rw [hsb, hsc]) hb hc] at h2
+  rw [lt_iff_key a c hF hsc ha hc]
+  exact ⟨h1.1, h2.2.1, _root_.lt_trans h1.2.2 h2.2.2⟩
+
+/-- transitivity of `<=` -/
+theorem le_trans (h1 : a.le b = true) (h2 : b.le c = true) : a.le c = true := by
+  rw [le_iff_key a b hF hsb ha hb] at h1
+  rw [le_iff_key b c (by rw [hsb]; exact hF) (by rw [hsb, hsc]) hb hc] at h2
+  rw [le_iff_key a c hF hsc ha hc]
+  exact ⟨h1.1, h2.2.1, _root_.le_trans h1.2.2 h2.2.2⟩
+
+theorem lt_of_lt_of_le (h1 : a.lt b = true) (h2 : b.le c = true) : a.lt c = true := by
+  rw [lt_iff_key a b hF hsb ha hb] at h1
+  rw [le_iff_key b c (by rw [hsb]; exact hF) (by rw [hsb, hsc]) hb hc] at h2
+  rw [lt_iff_key a c hF hsc ha hc]
+  exact ⟨h1.1, h2.2.1, _root_.lt_of_lt_of_le h1.2.2 h2.2.2⟩
+
+theorem lt_of_le_of_lt (h1 : a.le b = true) (h2 : b.lt c = true) : a.lt c = true := by
+  rw [le_iff_key a b hF hsb ha hb] at h1
+  rw [lt_iff_key b c (by rw [hsb]; exact hF) (by rw [hsb, hsc]) hb hc] at h2
+  rw [lt_iff_key a c hF hsc ha hc]
+  exact ⟨h1.1, h2.2.1, _root_.lt_of_le_of_lt h1.2.2 h2.2.2⟩
+
+end
+
+/-! ### `min` and `max` -/
+
+/-- canonical values of one format and one sign that compare `==` are the same datum -/
+theorem eq_of_beq {a b : Flt} (hs : b.sem = a.sem) (ha : a.Canonical) (hb : b.Canonical)
+    (hsg : a.sign = b.sign) (h : a.beq b = true) : a = b := by
+  obtain ⟨s, sg, e, m, c⟩ := a
+  obtain ⟨s', sg', e', m', c'⟩ := b
+  simp only at hs hsg
+  subst hs hsg
+  cases c
+  case nan => simp [Flt.beq] at h
+  case inf =>
+    simp only [Flt.beq, beq_self_eq_true, Bool.true_and, Bool.and_eq_true, beq_iff_eq] at h
+    obtain ⟨⟨rfl, rfl⟩, rfl⟩ := h; rfl
+  case normal =>
+    simp only [Flt.beq, beq_self_eq_true, Bool.true_and, Bool.and_eq_true, beq_iff_eq] at h
+    obtain ⟨⟨rfl, rfl⟩, rfl⟩ := h; rfl
+  case zero =>
+    simp only [Flt.beq, beq_iff_eq] at h
+    subst h
+    have h1 := (Flt.canonical_special (x := ⟨s', sg, e, m, .zero⟩) (by simp)).1 ha
+    have h2 := (Flt.canonical_special (x := ⟨s', sg, e', m', .zero⟩) (by simp)).1 hb
+    simp only at h1 h2
+    obtain ⟨rfl, rfl⟩ := h1
+    obtain ⟨rfl, rfl⟩ := h2
+    rfl
+
+/-- the three possible results of comparing non-NaN values -/
+theorem cmp_cases {a b : Flt} (ha : a.cat ≠ .nan) (hb : b.cat ≠ .nan) :
+    Spec.cmp a b = some .lt ∨ Spec.cmp a b = some .eq ∨ Spec.cmp a b = some .gt := by
+  rw [Spec.cmp_of_not_nan ha hb]; split_ifs <;> simp
+
+/-- a value with clear sign bit is never below one with set sign bit -/
+theorem not_lt_of_signs {a b : Flt} (hsa : a.sign = false) (hsb : b.sign = true) :
+    Spec.cmp a b ≠ some .lt := by
+  intro h
+  rw [Spec.cmp_lt_iff] at h
+  exact absurd h.2.2 (not_lt.2 (_root_.le_trans (Spec.key_nonpos hsb) (Spec.key_nonneg hsa)))
+
+theorem not_gt_of_signs {a b : Flt} (hsa : a.sign = true) (hsb : b.sign = false) :
+    Spec.cmp a b ≠ some .gt := by
+  intro h
+  rw [Spec.cmp_gt_iff] at h
+  exact absurd h.2.2 (not_lt.2 (_root_.le_trans (Spec.key_nonpos hsa) (Spec.key_nonneg hsb)))
+
+/-- **C05, `min`**: the smaller operand; the other operand if one is NaN; `-0` below `+0`. -/
+theorem min_spec (a b : Flt) (hF : a.sem.WF) (hs : b.sem = a.sem) (ha : a.Canonical)
+    (hb : b.Canonical) : a.min b = Spec.min a b := by
+  unfold Flt.min Spec.min Flt.isNan Spec.isNan
+  by_cases han : a.cat = .nan
+  · simp [han]
+  by_cases hbn : b.cat = .nan
+  · simp [hbn]
+  have hna : (a.cat == Cat.nan) = false := by simp [han]
+  have hnb : (b.cat == Cat.nan) = false := by simp [hbn]
+  rw [gt_iff a b hF hs ha hb]
+  simp only [hna, hnb, Bool.false_eq_true, if_false]
+  rcases cmp_cases han hbn with h | h | h
+  · rw [h]
+    cases hsa : a.sign <;> cases hsb : b.sign <;> simp
+    exact absurd h (not_lt_of_signs hsa hsb)
+  · rw [h]
+    cases hsa : a.sign <;> cases hsb : b.sign <;> simp
+    exact eq_of_beq hs ha hb (by rw [hsa, hsb]) ((eq_iff_cmp_eq a b hF hs ha hb).2 h)
+  · rw [h]
+    cases hsa : a.sign <;> cases hsb : b.sign <;> simp
+    exact absurd h (not_gt_of_signs hsa hsb)
+
+/-- **C05, `max`**: the larger operand; the other operand if one is NaN; `+0` above `-0`. -/
+theorem max_spec (a b : Flt) (hF : a.sem.WF) (hs : b.sem = a.sem) (ha : a.Canonical)
+    (hb : b.Canonical) : a.max b = Spec.max a b := by
+  unfold Flt.max Spec.max Flt.isNan Spec.isNan
+  by_cases han : a.cat = .nan
+  · simp [han]
+  by_cases hbn : b.cat = .nan
+  · simp [hbn]
+  have hna : (a.cat == Cat.nan) = false := by simp [han]
+  have hnb : (b.cat == Cat.nan) = false := by simp [hbn]
+  rw [gt_iff a b hF hs ha hb]
+  simp only [hna, hnb, Bool.false_eq_true, if_false]
+  rcases cmp_cases han hbn with h | h | h
+  · rw [h]
+    cases hsa : a.sign <;> cases hsb : b.sign <;> simp
+    exact absurd h (not_lt_of_signs hsa hsb)
+  · rw [h]
+    cases hsa : a.sign <;> cases hsb : b.sign <;> simp
+    exact (eq_of_beq hs ha hb (by rw [hsa, hsb]) ((eq_iff_cmp_eq a b hF hs ha hb).2 h)).symm
+  · rw [h]
+    cases hsa : a.sign <;> cases hsb : b.sign <;> simp
+    exact absurd h (not_gt_of_signs hsa hsb)
+
+/-! ### The hypotheses are satisfiable: concrete FP16 values -/
+
+/-- smallest positive subnormal of FP16, `2^-24` -/
+def exSub : Flt := ⟨FP16, false, -14, 1, .normal⟩
+/-- `1.0` in FP16 (a normal number) -/
+def exOne : Flt := ⟨FP16, false, 0, 1024, .normal⟩
+
+theorem exSub_wf : exSub.sem.WF := by unfold Sem.WF; decide
+theorem exSub_canonical : exSub.Canonical := by unfold Flt.Canonical; decide
+theorem exOne_canonical : exOne.Canonical := by unfold Flt.Canonical; decide
+
+/-- `partialCmp_spec` instantiated: the model says `2^-24 < 1.0`, hence so does the spec. -/
+example : exSub.partialCmp exOne = some .lt ∧ Spec.cmp exSub exOne = some .lt := by
+  have h := partialCmp_spec exSub exOne exSub_wf rfl exSub_canonical exOne_canonical
+  have h' : exSub.partialCmp exOne = some .lt := by decide
+  exact ⟨h', h ▸ h'⟩
+
+/-- `min_spec` / `max_spec` instantiated -/
+example : Spec.min exSub exOne = exSub ∧ Spec.max exSub exOne = exOne := by
+  rw [← min_spec exSub exOne exSub_wf rfl exSub_canonical exOne_canonical,
+    ← max_spec exSub exOne exSub_wf rfl exSub_canonical exOne_canonical]
+  exact ⟨by decide, by decide⟩
+
+/-- `-0 == +0`, yet `min` returns `-0` and `max` returns `+0`, in either argument order -/
+example : (Flt.zero FP16 true).beq (Flt.zero FP16 false) = true
+    ∧ (Flt.zero FP16 true).min (Flt.zero FP16 false) = Flt.zero FP16 true
+    ∧ (Flt.zero FP16 false).min (Flt.zero FP16 true) = Flt.zero FP16 true
+    ∧ (Flt.zero FP16 true).max (Flt.zero FP16 false) = Flt.zero FP16 false
+    ∧ (Flt.zero FP16 false).max (Flt.zero FP16 true) = Flt.zero FP16 false := by decide
+
+/-- The canonicity hypothesis cannot be dropped: `1·2^(1-10)` and `2·2^(0-10)` denote the same
+    number, the first datum is not canonical, and the model orders them by exponent. -/
+example : (⟨FP16, false, 1, 1, .normal⟩ : Flt).partialCmp ⟨FP16, false, 0, 2, .normal⟩ = some .gt
+    ∧ Spec.cmp ⟨FP16, false, 1, 1, .normal⟩ ⟨FP16, false, 0, 2, .normal⟩ = some .eq := by
+  refine ⟨by decide, ?_⟩
+  rw [Spec.cmp_fin (by decide) (by decide) (by decide) (by decide),
+    Flt.val_normal rfl, Flt.val_normal rfl, Flt.mag_eq, Flt.mag_eq]
+  norm_num [FP16]
+
 end Arp.C05
